@@ -8,6 +8,8 @@ for pf in sorted(glob.glob(os.path.join(ROOT, "plans", "C*.py"))):
     spec = importlib.util.spec_from_file_location("p", pf)
     mod = importlib.util.module_from_spec(spec); spec.loader.exec_module(mod)
     plans[mod.PLAN["id"]] = mod.PLAN
+ready = [l.strip() for l in open(os.path.join(ROOT, "plans", "ready.txt")) if l.strip() and not l.startswith("#")]
+plans = {k: v for k, v in plans.items() if k in ready}
 NA = {}
 naf = os.path.join(ROOT, "plans", "not_applicable.json")
 if os.path.exists(naf):
